@@ -50,6 +50,10 @@ type hval struct {
 func createValidators(r *hx.R, nibiru *app.NibiruApp, ctx sdk.Context, n int, tag byte) []hval {
 	ms := stakingkeeper.NewMsgServerImpl(nibiru.StakingKeeper)
 	var out []hval
+	samePower := int64(0)
+	if r.Chance(1, 2) {
+		samePower = []int64{1, 1, 2, 10}[r.Pick(4)]
+	}
 	for i := 0; i < n; i++ {
 		seed := make([]byte, 32)
 		seed[0], seed[1], seed[2] = tag, byte(i), byte(r.Pick(250))
@@ -66,6 +70,9 @@ func createValidators(r *hx.R, nibiru *app.NibiruApp, ctx sdk.Context, n int, ta
 			power = r.Range(1, 1_000_000)
 		default:
 			power = r.Range(1, 100)
+		}
+		if samePower > 0 { // equal powers: cumulative power hits exactly half of the total
+			power = samePower
 		}
 		amt := sdk.TokensFromConsensusPower(power, sdk.DefaultPowerReduction)
 		if r.Chance(1, 4) { // not an exact multiple of the power reduction
